@@ -43,6 +43,7 @@ import (
 //             x<hex> (this tag instead)  z (empty tag)  m<hex> (other message)  a<hex> (message||hex)
 //             mutations joined by '+' are applied left to right (f3+f3 restores the tag)
 //     extra   path I with HMAC: ',' separated split points of the message into parts
+// case line (a crypto/hmac object, hmacobj.go):  C04|W|<hash>|<key hex>|<op;op;...>
 // case line (several keys through mac.New):
 //   C04|M|<k;k;...>|<primary index>|<use index>|<msg hex>|<muts>
 //     k = alg,keyhex,tag,variant,id ; the tag that is mutated and verified by
@@ -356,6 +357,9 @@ func run(in string) string {
 	if f[1] == "M" {
 		return runSet(f)
 	}
+	if f[1] == "W" {
+		return runHmacObj(f)
+	}
 	path, alg := f[1], f[2]
 	kb := hx.UH(f[3])
 	tag, _ := strconv.Atoi(f[4])
@@ -579,6 +583,9 @@ func check(in, obs string) string {
 	o := strings.Split(obs, "|")
 	if f[1] == "M" {
 		return checkSet(f, o)
+	}
+	if f[1] == "W" {
+		return checkHmacObj(f, obs)
 	}
 	tag, _ := strconv.Atoi(f[4])
 	id64, _ := strconv.ParseUint(f[6], 10, 32)
@@ -863,6 +870,10 @@ func gen(r *hx.Rng, n int, tier string) []string {
 	var lines []string
 	for c := 0; c < n; c++ {
 		x := r.Intn(100)
+		if r.Chance(5) { // a crypto/hmac object under an arbitrary Write/Sum/Reset sequence (hmacobj.go)
+			lines = append(lines, genHmacObj(r))
+			continue
+		}
 		var path string
 		switch {
 		case x < 18:
@@ -944,6 +955,9 @@ func class(in, obs string) string {
 		return ""
 	}
 	f := strings.Split(in, "|")
+	if f[1] == "W" {
+		return classHmacObj(f, obs)
+	}
 	if f[1] == "M" {
 		o := strings.Split(obs, "|")
 		if len(o) != 5 {
